@@ -21,6 +21,7 @@ HERE = os.path.dirname(os.path.abspath(__file__))
 VERIF = os.path.dirname(HERE)
 sys.path.insert(0, HERE)
 import gen       # noqa: E402
+import m2gen     # noqa: E402
 import props     # noqa: E402
 import runner    # noqa: E402
 
@@ -32,6 +33,64 @@ FORBIDDEN = ["sorry", "admit", "native_decide", "bv_decide", "implemented_by", "
 
 N_PROGRAMS = {"quick": 3000, "thorough": 120000}
 N_TWINS = {"quick": 250, "thorough": 6000}
+# generated-source mode (declared functions: distinct constructor IDs, runtime names): batches x programs
+M2_PROPS = {"C01", "C13", "C14", "C18", "C19", "C20"}
+N_M2 = {"quick": (1, 200), "thorough": (8, 300)}
+
+
+class M2Pair:
+    """model driver + the executor with the generated programs compiled in"""
+    def __init__(self):
+        self.model = runner.Proc([runner.DRIVER])
+        self.impl = runner.Proc([os.path.join(WORK, "digexec-m2"), "-supervise", "-timeout", "20s"])
+
+    def run(self, prog):
+        line = json.dumps(prog, separators=(",", ":"))
+        return self.model.ask(line), self.impl.ask(line)
+
+    def close(self):
+        self.model.close()
+        self.impl.close()
+
+
+def m2_phase(pid, tier, seed):
+    """returns (failures, stats)"""
+    batches, size = N_M2[tier]
+    w = dict(props.PROFILE.get(pid, {}))
+    w.setdefault("visualize", 0.08)
+    fails, n, ntriv, skipped = [], 0, 0, 0
+    for b in range(batches):
+        progs = []
+        for k in range(size):
+            sd = (seed * 7 + 1000 + b) * 1000003 + k
+            p = gen.generate(sd, w)
+            key = "s%db%dk%d" % (seed, b, k)
+            p["m2"] = key
+            p["ids"] = "distinct"
+            progs.append((key, p, sd))
+        ok, err = m2gen.build([(k, p) for (k, p, _) in progs], "m2")
+        if not ok:
+            fails.append({"kind": "build", "descr": "generated-source executor does not build: " + err[-1500:], "program": None, "seed": seed})
+            break
+        pair = M2Pair()
+        for key, p, sd in progs:
+            fs, st = explore_one(pid, pair, p, False, random.Random(sd))
+            n += 1
+            if st.get("skipped"):
+                skipped += 1
+            if st.get("nontrivial"):
+                ntriv += 1
+            for f in fs[:1]:
+                f["seed"] = "m2:%d" % sd
+                f["m2"] = True
+                fails.append(f)
+            if len(fails) >= 3:
+                break
+        pair.close()
+        if len(fails) >= 3:
+            break
+    return fails, {"programs": n, "nontrivial": ntriv, "skipped": skipped, "batches": batches}
+
 
 
 def log(*a):
@@ -40,12 +99,32 @@ def log(*a):
 
 # ------------------------------------------------------------------ build
 
-def build():
+WORK = None      # per-property working copy of the harness: checks may run concurrently
+
+
+def build(pid="shared"):
+    """copy the harness sources to .work/<pid>/ and build the executor there against /repo's working tree"""
+    global WORK
+    import shutil
     t = time.time()
-    r = subprocess.run(["go", "build", "-tags", "verif", "-o", "digexec", "./cmd/digexec"], cwd=HARNESS, env=GOENV,
+    WORK = os.path.join(VERIF, ".work", pid)
+    shutil.rmtree(WORK, ignore_errors=True)
+    os.makedirs(WORK)
+    for name in ("go.mod", "go.sum", "pool", "exec", "cmd"):
+        src = os.path.join(HARNESS, name)
+        dst = os.path.join(WORK, name)
+        if os.path.isdir(src):
+            shutil.copytree(src, dst)
+        else:
+            shutil.copy(src, dst)
+    os.makedirs(os.path.join(WORK, "m2gen"))
+    shutil.copy(os.path.join(HARNESS, "m2gen", "doc.go"), os.path.join(WORK, "m2gen", "doc.go"))
+    r = subprocess.run(["go", "build", "-tags", "verif", "-o", "digexec", "./cmd/digexec"], cwd=WORK, env=GOENV,
                        capture_output=True, text=True)
     if r.returncode != 0:
         return False, "go build of the harness against /repo failed:\n" + r.stderr[-3000:]
+    runner.DIGEXEC = os.path.join(WORK, "digexec")
+    m2gen.HARNESS = WORK
     r = subprocess.run(["lake", "build", "driver"], cwd=LEAN, capture_output=True, text=True)
     if r.returncode != 0:
         return False, "lake build driver failed:\n" + (r.stdout + r.stderr)[-3000:]
@@ -316,7 +395,7 @@ def main():
     manifest = json.load(open(os.path.join(VERIF, "MANIFEST.json")))
     level = next((c["level_claimed"]["category"] for c in manifest["checks"] if c["property_id"] == pid), "proof")
 
-    ok, msg = build()
+    ok, msg = build(pid)
     violations = []          # (replay_path, suffix)
     if not ok:
         path = os.path.join(VERIF, "replays", "%s-build.json" % pid)
@@ -348,6 +427,11 @@ def main():
         import kgraph
         graph_stats, gfails = kgraph.run(tier, seed)
         fails.extend(gfails)
+
+    m2_stats = None
+    if pid in M2_PROPS:
+        m2fails, m2_stats = m2_phase(pid, tier, seed)
+        fails.extend(m2fails)
 
     n = N_PROGRAMS[tier]
     ntw = N_TWINS[tier] if pid in ("C06", "C14", "C16", "C17") else 0
@@ -389,6 +473,14 @@ def main():
             reported += 1
             continue
         kind = f["kind"]
+        if f.get("m2") or kind == "build":
+            path = os.path.join(VERIF, "replays", "%s-m2-%d.json" % (pid, reported))
+            json.dump({"property": pid, "kind": kind, "descr": f["descr"], "seed": f.get("seed"), "program": f.get("program"),
+                       "note": "generated-source mode: replay needs the program compiled in (tools/m2gen.py); not shrunk"}, open(path, "w"), indent=1)
+            violations.append((path, "" if kind == "predicate" else " no-failing-input-found" if pid in NEEDS_INDEPENDENT or kind == "build" else ""))
+            log("  m2 %s: %s" % (kind, f["descr"]))
+            reported += 1
+            continue
 
         def still(p, kind=kind):
             fs, _ = explore_one(pid, pair, p, kind == "twin", random.Random(0))
@@ -438,6 +530,8 @@ def main():
     }
     if graph_stats:
         cov["k_graph"] = graph_stats
+    if m2_stats:
+        cov["generated_source_mode"] = m2_stats
     if pr.get("leanchecker"):
         cov["leanchecker"] = pr["leanchecker"]
     if level != "proof" or not pr["obligations"]:
@@ -456,7 +550,7 @@ NEEDS_INDEPENDENT = {"C02", "C03", "C05", "C13", "C14", "C17", "C20"}
 
 
 def replay(pid, path):
-    ok, msg = build()
+    ok, msg = build(pid + "-replay")
     if not ok:
         print(msg)
         return 1
